@@ -151,6 +151,31 @@ Proof.
 Qed.
 Print Assumptions C19_cdpinfo_no_panic.
 
+(* the fuel of the TLV walk is never exhausted: any two fuels above the number of octets left give the same result *)
+Lemma cdp_loop_fuel data : forall f1 f2 off, 0 <= off -> zlen data - off < Z.of_nat f1 -> zlen data - off < Z.of_nat f2 ->
+  cdp_loop data off f1 = cdp_loop data off f2.
+Proof.
+  induction f1 as [|f1 IH]; intros f2 off H0 H1 H2.
+  - destruct f2 as [|f2]; [reflexivity|]. cbn [cdp_loop]. cbv zeta. destruct (zlen data <=? off) eqn:C0; [reflexivity|lia].
+  - destruct f2 as [|f2].
+    + cbn [cdp_loop]. cbv zeta. destruct (zlen data <=? off) eqn:C0; [reflexivity|lia].
+    + cbn [cdp_loop]. cbv zeta. destruct (zlen data <=? off) eqn:C0; [reflexivity|]. destruct (zlen data - off <? 4); [reflexivity|].
+      destruct (cd_rd16 data off) as [ty|?|?]; [|reflexivity|reflexivity]. destruct (cd_rd16 data (off + 2)) as [ln|?|?]; [|reflexivity|reflexivity].
+      destruct (ln <? 4) eqn:C2; [reflexivity|]. destruct (zlen data - off <? ln) eqn:C3; [reflexivity|].
+      destruct (cd_slc data (off + 4) (off + ln)); [|reflexivity|reflexivity]. rewrite (IH f2 (off + ln)) by lia. reflexivity.
+Qed.
+Theorem C19_cdpinfo_walk_fuel : forall data extra, ci_decode data =
+  match cdp_loop data 0 (Z.to_nat (zlen data + 1) + extra) with
+  | (Ok vs, tr) => let r := ci_all false vs [] in (mkCi data (fst r), snd r, tr)
+  | (Err c, tr) => (mkCi data [], Err c, tr)
+  | (Panic s, tr) => (mkCi data [], Panic s, tr)
+  end.
+Proof.
+  intros data extra. unfold ci_decode, ci_decode_gen. pose proof (zlen_nonneg data).
+  rewrite (cdp_loop_fuel data (Z.to_nat (zlen data + 1)) (Z.to_nat (zlen data + 1) + extra) 0) by lia. reflexivity.
+Qed.
+Print Assumptions C19_cdpinfo_walk_fuel.
+
 (* the code before the repairs: an IP prefix TLV with prefix length 33 (nil IPNet dereferenced) and a power-requested TLV with
    six value octets as the last TLV (val.Value[4:8] past the capacity) panic *)
 Theorem C19_cdpinfo_no_panic_orig_prefix_refuted : exists data, bytes_ok data /\ is_panic (snd (fst (ci_decode_orig data))) = true.
